@@ -495,6 +495,12 @@ func (w *MWorld) applyStack(op Op, self string, el ElemFn) []Alt {
 		}
 		return one(n, self)
 
+	case "SetAuxiliary":
+		if !ro {
+			m.Aux = auxModel(op.Args)
+		}
+		return one(n, self)
+
 	case "SetPushPolicy":
 		if !ro {
 			if len(op.Args) == 0 || op.Args[0].K == "nil" {
@@ -681,4 +687,14 @@ func logString(v uint16) string {
 		}
 	}
 	return strings.Join(p, ",")
+}
+
+// auxModel: SetAuxiliary installs the given map; none or nil installs a
+// fresh empty one.
+func auxModel(args []Val) string {
+	if len(args) == 0 || args[0].K != "aux" {
+		return "aux#?{}"
+	}
+	k := strconv.FormatInt(args[0].I, 10)
+	return "aux#" + k + "{k" + k + "=" + k + "}"
 }
